@@ -148,6 +148,31 @@ def distinct_positions(rng, n):
     return out
 
 
+def lattice_positions(rng, g, nbits, step):
+    """positions on the lattice step * [0, 2^nbits - 1]^3 + origin whose largest extent is exactly 2^nbits - 1 steps (both
+    extremes on vertices used by faces / on points): quantization with nbits bits is exact on them"""
+    pos = first_att(g, G.POSITION)
+    n, top = pos.num_values, 2 ** nbits - 1
+    used = sorted({(p if pos.map is None else pos.map[p]) for f in g.faces for p in f}) if g.faces else \
+        sorted({(p if pos.map is None else pos.map[p]) for p in range(g.num_points)})
+    if len(used) < 2 or n > (top + 1) ** 3 // 2:
+        return False
+    org = [rng.randint(-64, 64) for _ in range(3)]
+    seen, pts = set(), []
+    while len(pts) < n:
+        p = (rng.randint(0, top), rng.randint(0, top), rng.randint(0, top))
+        if p not in seen:
+            seen.add(p)
+            pts.append(list(p))
+    a, b = rng.sample(used, 2)
+    c = rng.randrange(3)
+    pts[a][c], pts[b][c] = 0, top
+    if len({tuple(p) for p in pts}) != n:
+        return False
+    pos.values = pack_floats([tuple(G.f32((k + o) * step) for k, o in zip(p, org)) for p in pts])
+    return True
+
+
 def refill(rng, g, boundary_byte=False, clean=False):
     """replace the float attribute values of a generated geometry by values of the property's range"""
     for a in g.atts:
@@ -190,7 +215,7 @@ def rand_specs(rng):
 
 def rand_geom(rng, tier, mesh=None):
     mesh = rng.random() < 0.65 if mesh is None else mesh
-    big = [4, 12, 40, 120] if tier == "thorough" else [4, 12, 40]
+    big = [4, 12, 40, 120, 300] if tier == "thorough" else [4, 12, 40, 100]
     if mesh:
         g = G.rand_mesh(rng, rng.choice(big), specs=rand_specs(rng))
     else:
@@ -418,7 +443,6 @@ def obj_mesh_oracle(g, am):
                 k = src_key(want, p)
                 # connectivity and seams: same point of the result <=> same printed values of all attributes
                 if key_of_point.setdefault(q, k) != k:
-                    ex = exact_of_point.get(q)
                     return ("obj-connectivity",
                             f"OBJ round trip: face {fi}: two corners with different written values "
                             f"({k} vs {key_of_point[q]}) share point {q} of the result: `{op}`")
@@ -551,7 +575,7 @@ def tool_oracle(fin, fout, as_pc):
         if not m1 and fout == "obj":        # ObjDecoder merges identical points of a point cloud
             s1, s2 = sorted(set(s1)), sorted(set(s2))
         if s1 != s2:
-            return ("tools-values", f"with quantization disabled the geometry read from the tools' output differs from "
+            return ("tools-values", f"with lossless settings (`-qp 0`, or lattice positions with `-qp N`) the geometry read from the tools' output differs from "
                                     f"the geometry read from the input file (attribute types {types}): `{op}`")
         return None
     return f
@@ -791,7 +815,7 @@ def generate(rng, tier):
     thorough = tier == "thorough"
     cases = witness_cases()
     # ---- 1. in-process round trips of geometries of the property's domain
-    n_geom = 1500 if thorough else 330
+    n_geom = 6000 if thorough else 1200
     for i in range(n_geom):
         g = refill(rng, rand_geom(rng, tier), boundary_byte=rng.random() < 0.3)
         fl = "asan" if i % 4 == 0 else "plain"
@@ -806,7 +830,7 @@ def generate(rng, tier):
             cases.append(case_from_line(f"obj_rt {1 - am} " + t, fl, ("obj", "cross_read")))
     # ---- 2. geometries outside the property's domain (other types / several attributes of a kind / no position):
     #         correspondence, and the oracles wherever the theorems' hypotheses hold
-    for i in range(400 if thorough else 90):
+    for i in range(1500 if thorough else 300):
         specs = G.rand_att_specs(rng, with_position=rng.random() < 0.93)
         specs = [(t, d, 3 if t == G.POSITION else c, nz, u) for (t, d, c, nz, u) in specs]
         # kept inside what the C++ writers handle without undefined behaviour (colours with at most 4 components)
@@ -823,7 +847,7 @@ def generate(rng, tier):
         cases.append(case_from_line(f"ply_rt {am} " + t, "plain", ("ply", "other_types")))
         cases.append(case_from_line(f"obj_rt {am} " + t, "plain", ("obj", "other_types")))
     # ---- 3. the readers on files not written by the library's writers
-    for i in range(500 if thorough else 120):
+    for i in range(2000 if thorough else 400):
         g = refill(rng, rand_geom(rng, "quick"))
         if g.num_points == 0:
             continue
@@ -834,13 +858,13 @@ def generate(rng, tier):
     for f in (stl, stl + b"trailing", b"solid " + stl[6:], b"binary header, not ascii".ljust(80, b".") + stl[80:]):
         cases.append(case_from_line("stl_dec " + f.hex(), "plain", ("stl_dec", "handwritten")))
     # ---- 4. the number codec alone
-    for i in range(120 if thorough else 30):
+    for i in range(400 if thorough else 80):
         bits = [special_bits(rng) for _ in range(240)]
         if i % 10 == 0:     # correspondence beyond the property's range: huge values (19-character truncation), inf, nan
             bits += [G.f32_bits(G.f32(x)) for x in (1e12, -1e12, 3.4e38, 1e30)] + [0x7f800000, 0xff800000, 0x7fc00000]
         cases.append(case_from_line("obj_nums " + ",".join(map(str, bits)), "plain", ("obj_nums",)))
     # ---- 5. the command line tools on temporary files, quantization disabled
-    for i in range(160 if thorough else 48):
+    for i in range(1200 if thorough else 240):
         fin = rng.choice(["ply", "obj", "stl", "ply", "obj"])
         fout = rng.choice(["ply", "obj", "stl", "ply", "obj"])
         if rng.random() < 0.7:
@@ -858,10 +882,17 @@ def generate(rng, tier):
         if g.num_points == 0 or (fin == "stl" and not g.faces):
             continue
         opts = ["-qp", "0", "-qn", "0", "-qt", "0", "-qg", "0"]
+        tag = "unquantized"
+        if rng.random() < 0.45:
+            # quantized positions, lossless by construction: lattice positions spanning exactly 2^N - 1 steps
+            nb = rng.randint(3, 14)
+            if lattice_positions(rng, g, nb, rng.choice([1.0, 0.5, 0.25, 0.125, 2.0, 8.0])):
+                opts[1] = str(nb)
+                tag = "lattice_qp"
         if rng.random() < 0.7:
             opts += ["-cl", str(rng.randint(0, 10))]
         line = f"tool_rt in={fin} out={fout} pc={1 if as_pc else 0} opts={','.join(opts)} -- " + g.to_text()
-        cases.append(case_from_line(line, "plain", ("tools", f"{fin}->{fout}", "pc" if as_pc else "mesh")))
+        cases.append(case_from_line(line, "plain", ("tools", f"{fin}->{fout}", "pc" if as_pc else "mesh", tag)))
     return cases
 
 
@@ -879,4 +910,9 @@ def mesh_family(rng, specs):
 
 
 def replay_cases(lines):
-    return [case_from_line(l) for l in lines]
+    out = []
+    for l in lines:
+        out.append(case_from_line(l, "plain", ("replay",)))
+        if not l.startswith("tool_rt"):
+            out.append(case_from_line(l, "asan", ("replay",)))
+    return out
